@@ -61,6 +61,8 @@ func c02Run(f []string) string {
 		return c02PoolRun(f)
 	case "tflush":
 		return c02TFlushRun(f)
+	case "tfheap":
+		return c02TFHeapRun(f)
 	case "filt", "filtl", "vis", "idx":
 		return c02FilterRun(f)
 	case "ctx":
